@@ -121,6 +121,10 @@ func RemoveDuplicateEntries(entries []string, allAlias string) (res []string) {
 func (user *User) UpdateUser(cmd []string) error {
 	for _, str := range cmd {
 		// Parse enabled
+		if len(str) == 0 {
+			// An empty rule (or an empty username) carries nothing to parse.
+			continue
+		}
 		if strings.EqualFold(str, "on") {
 			user.Enabled = true
 		}
